@@ -84,9 +84,6 @@ fn varint_read(b: &[u8]) -> Result<Option<(u32, usize)>, ()> {
     for (i, shift) in [0u32, 7, 14, 21].into_iter().enumerate() {
         let Some(&byte) = b.get(i) else { return Ok(None) };
         let part = (byte & 0x7F) as u32;
-        if shift == 21 && part > 0x0F {
-            return Err(());
-        }
         value |= part << shift;
         if byte & 0x80 == 0 {
             if shift != 0 && part == 0 {
@@ -450,6 +447,7 @@ enum Action {
     HandleDisconnect,
     SetBroker(u64),
     SetPid(u64),
+    Heal,
 }
 
 fn parse_config(t: &mut Toks) -> Result<OConfig, Bad> {
@@ -497,6 +495,7 @@ fn parse_action(t: &mut Toks) -> Result<Action, Bad> {
         11 => Action::HandleDisconnect,
         12 => Action::SetBroker(t.n()?),
         13 => Action::SetPid(t.n()?),
+        14 => Action::Heal,
         _ => return Err(Bad("parse")),
     })
 }
@@ -619,6 +618,7 @@ pub fn run(t: &mut Toks) -> Result<String, Bad> {
                 Action::HandleDisconnect => 11,
                 Action::SetBroker(_) => 12,
                 Action::SetPid(_) => 13,
+                Action::Heal => 14,
             };
             let marker = match action {
                 Action::Publish(p) => format!("#{}:{}", code, p.qos as u8),
@@ -759,6 +759,11 @@ pub fn run(t: &mut Toks) -> Result<String, Bad> {
                 Action::SetBroker(m) => {
                     shared.borrow_mut().broker = *m;
                     "= broker".into()
+                }
+                Action::Heal => {
+                    let mut sh = shared.borrow_mut();
+                    sh.script_pos = sh.script.len();
+                    "= healed".into()
                 }
                 Action::SetPid(p) => {
                     conn = match conn.take() {
